@@ -26,7 +26,10 @@ func main() {
 		os.Exit(2)
 	}
 	in := bufio.NewReaderSize(os.Stdin, 1<<20)
-	out := bufio.NewWriter(os.Stdout)
+	// the library prints diagnostics with fmt.Printf: keep the protocol channel for the replies only
+	proto := os.Stdout
+	os.Stdout = os.Stderr
+	out := bufio.NewWriter(proto)
 	defer out.Flush()
 	enc := json.NewEncoder(out)
 	enc.SetEscapeHTML(false)
